@@ -39,7 +39,7 @@ pub struct C7Cfg {
     pub page_rows: u8,
     /// 0 Page, 1 Chunk, 2 None
     pub stats: u8,
-    /// 0 off, 1 on (max_ndv=1000), 2 ndv=1 fpp=0.5, 3 ndv=8 fpp=0.01, 4 on (default ndv=1M, ~1 MiB filter; only at <= 1 deviation)
+    /// 0 off, 1 on (max_ndv=1000), 2 ndv=1 fpp=0.5, 3 ndv=8 fpp=0.01, 4 on (default ndv=1M, ~1 MiB filter; only at <= 1 deviation), 5 max_ndv=100 fpp=0.01 (bloomlong only)
     pub bloom: u8,
     pub v2: bool,
     pub dict: bool,
@@ -72,6 +72,7 @@ impl C7Cfg {
         match self.bloom {
             1 => b = b.set_bloom_filter_enabled(true).set_bloom_filter_max_ndv(1000),
             4 => b = b.set_bloom_filter_enabled(true),
+            5 => b = b.set_bloom_filter_enabled(true).set_bloom_filter_max_ndv(100).set_bloom_filter_fpp(0.01),
             2 => b = b.set_bloom_filter_enabled(true).set_bloom_filter_max_ndv(1).set_bloom_filter_fpp(0.5),
             3 => b = b.set_bloom_filter_enabled(true).set_bloom_filter_max_ndv(8).set_bloom_filter_fpp(0.01),
             _ => {}
@@ -517,7 +518,7 @@ fn run_case(c: &Case) -> Result<(FileObs, ConvObs), Fail> {
     });
     match r {
         Ok(x) => x,
-        Err(p) => Err((format!("c07:{}", p.fingerprint()), format!("panic at {}:{}: {}", p.file, p.line, p.msg))),
+        Err(p) => Err((format!("c07:{}", p.fingerprint().lines().next().unwrap_or("")), format!("panic at {}:{}: {}", p.file, p.line, p.msg))),
     }
 }
 
@@ -823,6 +824,60 @@ pub fn run(ctx: &Ctx) -> ! {
                 st.sample("binary", || case.to_json());
             }
             eval(&case, (2 << 40) + idx, st);
+        }));
+    }
+
+    // ---------------- bloomlong: many distinct values, so that the filter keeps several blocks after folding
+    if want("bloomlong") {
+        let sp: Vec<Spec> = specs().into_iter().filter(|s| matches!(s.label, "INT32" | "INT64/UINT64" | "DOUBLE" | "FLBA16/UUID")).chain([string_spec()]).collect();
+        let lens: Vec<usize> = if quick { vec![40, 100, 300, 1000, 3000] } else { vec![8, 20, 40, 64, 100, 200, 300, 600, 1000, 2000, 3000, 10000] };
+        let blooms: Vec<u8> = vec![1, 2, 3, 4, 5];
+        let pats: usize = 3; // ramp, LFSR-A, LFSR-B
+        let mut items = vec![];
+        for si in 0..sp.len() {
+            for li in 0..lens.len() {
+                for bl in &blooms {
+                    for pat in 0..pats {
+                        for dict in [true, false] {
+                            for page_rows in [0u8, 2] {
+                                if page_rows == 2 && lens[li] > 300 {
+                                    continue;
+                                }
+                                items.push((si, li, *bl, pat, dict, page_rows));
+                            }
+                        }
+                    }
+                }
+            }
+        }
+        st.extra.insert("bloomlong_bounds".into(), json!({"types": sp.iter().map(|s| s.label).collect::<Vec<_>>(), "lengths": lens, "bloom_settings": ["max_ndv=1000", "ndv=1 fpp=0.5", "ndv=8 fpp=0.01", "default (1M)", "max_ndv=100 fpp=0.01"], "patterns": ["ramp*7919", "LFSR-A", "LFSR-B"], "cases": items.len()}));
+        let a = vcore::lfsr_bytes(8 * 10000, vcore::LFSR_A);
+        let b2 = vcore::lfsr_bytes(8 * 10000, vcore::LFSR_B);
+        st.merge(par_for(ctx, "bloomlong", items.len() as u64, 4, |idx, st| {
+            let (si, li, bloom, pat, dict, page_rows) = items[idx as usize];
+            let spec = &sp[si];
+            let rows: Vec<Option<Raw>> = (0..lens[li])
+                .map(|i| {
+                    let k: u64 = match pat {
+                        0 => (i as u64).wrapping_mul(7919),
+                        1 => u64::from_le_bytes(a[8 * i..8 * i + 8].try_into().unwrap()),
+                        _ => u64::from_le_bytes(b2[8 * i..8 * i + 8].try_into().unwrap()),
+                    };
+                    Some(match spec.phys {
+                        PhysicalType::INT32 => Raw::I32(k as i32),
+                        PhysicalType::INT64 => Raw::I64(k as i64),
+                        PhysicalType::DOUBLE => Raw::F64((k as f64).to_bits()),
+                        PhysicalType::FIXED_LEN_BYTE_ARRAY => Raw::Bytes([k.to_le_bytes(), (!k).to_be_bytes()].concat()),
+                        _ => Raw::Bytes(format!("v{k}").into_bytes()),
+                    })
+                })
+                .collect();
+            let case = Case { sub: "bloomlong", input: Input::Low { spec: spec.clone(), rows }, cfg: C7Cfg { page_rows, stats: 0, bloom, v2: false, dict, hdr: false, trunc: 0 } };
+            st.add("bloomlong", 1, 1);
+            if idx + 1 == items.len() as u64 {
+                st.sample("bloomlong", || json!({"type": spec.label, "len": lens[li], "bloom": bloom, "pattern": pat, "dict": dict}));
+            }
+            eval(&case, (4 << 40) + idx, st);
         }));
     }
 
